@@ -85,6 +85,56 @@ def avg_case(args):
     return {'seed': seed, 'progs': progs, 'shared': shared, 'runs': out}
 
 
+def throttle_missing_bucket_probe():
+    """the bucket of a throttled function is an ordinary cache item: it may expire (the `expire`
+    argument), be cleared or be evicted.  Afterwards every call must still be let through (finding D23,
+    fixed: the wrapper raised TypeError for ever) and the rate must still be respected"""
+    import diskcache
+    bad = []
+    for how in ('expire', 'clear', 'delete'):
+        d = tempfile.mkdtemp(prefix='thrx-', dir=os.environ.get('VERIF_SCRATCH') or tempfile.gettempdir())
+        try:
+            c = diskcache.Cache(d)
+            clock = [1000.0]
+            starts = []
+
+            def sleep_func(x, clock=clock):
+                clock[0] += x
+
+            @diskcache.throttle(c, 2, 1, name='thr', expire=0.05 if how == 'expire' else None,
+                                time_func=lambda clock=clock: clock[0], sleep_func=sleep_func)
+            def f(starts=starts, clock=clock):
+                starts.append(clock[0])
+            f()
+            if how == 'expire':
+                import time
+                time.sleep(0.2)          # the cache's own (real) clock decides expiry of the bucket item
+            elif how == 'clear':
+                c.clear()
+            else:
+                c.delete('thr')
+            clock[0] += 10
+            try:
+                for _ in range(5):
+                    f()
+            except Exception as e:  # noqa
+                bad.append('throttle: after the bucket was lost (%s) a call raised %s: %s' % (how, type(e).__name__, str(e)[:80]))
+                continue
+            late = starts[1:]
+            if len(late) != 5:
+                bad.append('throttle: after the bucket was lost (%s) only %d of 5 calls were let through' % (how, len(late)))
+            for i in range(len(late)):
+                for j in range(i + 1, len(late)):
+                    if (j - i + 1) > 2 + 2 * (late[j] - late[i]) + 1e-9:
+                        bad.append('throttle: after the bucket was lost (%s) %d calls started within %.3f s (count 2 per second)' % (how, j - i + 1, late[j] - late[i]))
+            c.close()
+        except Exception as e:  # noqa
+            bad.append('throttle missing-bucket probe (%s) raised %s: %s' % (how, type(e).__name__, str(e)[:100]))
+        finally:
+            shutil.rmtree(d, ignore_errors=True)
+    return bad[:3]
+
+
 def throttle_case(seed, frac_count=None):
     """one arrival pattern through the real decorator with a virtual clock"""
     import diskcache
@@ -252,6 +302,7 @@ def run(tier, seed, rng, known, replay):
     # of the Lean model, judged by the statement alone - every call is eventually let through, and any window
     # holding two or more starts respects count + rate * w
     frac_cases = 0
+    qlines, qimpl = [], []
     for fc in (Fraction(1, 2), Fraction(1, 4), Fraction(3, 2), Fraction(5, 2)):
         for _ in range(6 if tier == 'quick' else 60):
             t = throttle_case(rng.getrandbits(48), frac_count=fc)
@@ -271,13 +322,48 @@ def run(tier, seed, rng, known, replay):
             if why and len(violations) < 3:
                 violations.append({'replay': {'property': 'C20', 'kind': 'throttle-fractional', 'case_seed': t['seed'], 'count': float(fc), 'seconds': sec,
                                               'acceptor': why}, 'found_input': True, 'what': why})
+            # dyadic counts: the float arithmetic of the real code is exact, so the attempt outcomes are compared with
+            # the rational-count model DC.Recipes.QBucket (driver head `tq`; theorems in DC/Properties/C20_Rational.lean)
+            if fc.denominator in (2, 4) and fc.numerator == 1 and not why:
+                import math
+                den = 1
+                for x in [t['start']] + list(t['attempts']):
+                    den = den * x.denominator // math.gcd(den, x.denominator)
+                impl, si = [], 0
+                for i, a in enumerate(t['attempts']):
+                    nxt = t['attempts'][i + 1] if i + 1 < len(t['attempts']) else None
+                    if si < len(starts) and starts[si] == a:
+                        impl.append('p')
+                        si += 1
+                    elif nxt is not None:
+                        dl = nxt - a
+                        impl.append('d%d/%d' % (dl.numerator, dl.denominator))
+                    else:
+                        impl.append('d?')
+                qlines.append('tq p=%d q=%d seconds=%d den=%d start=%d times=%s' % (
+                    fc.numerator, fc.denominator, sec, den, int(t['start'] * den), ','.join(str(int(a * den)) for a in t['attempts']) or '-'))
+                qimpl.append((t, impl))
+    for v_ in throttle_missing_bucket_probe():
+        violations.append({'replay': {'property': 'C20', 'kind': 'throttle-missing-bucket', 'acceptor': v_}, 'found_input': True, 'what': v_})
+    qans = corr.run_driver(qlines) if qlines else []
+    q_div = 0
+    for line, (t, impl), ans in zip(qlines, qimpl, qans):
+        model = ans[3:].split(',') if len(ans) > 3 else []
+        if impl != model:
+            q_div += 1
+            if len(violations) < 3:
+                what = 'throttle(count=%s): attempt outcomes differ from DC.Recipes.QBucket: impl %s model %s' % (
+                    float(t['count']), ','.join(impl)[:120], ','.join(model)[:120])
+                violations.append({'replay': {'property': 'C20', 'kind': 'throttle-rational-correspondence', 'case_seed': t['seed'], 'line': line,
+                                              'impl': impl, 'model': ans, 'model_part': 'DC.Recipes.QBucket.attempt'}, 'found_input': False, 'what': what})
     return {
         'evaluations': avg_runs + len(tcases), 'distinct_nontrivial': len(set(lines)) + len(set(tlines)),
         'rule': 'Averager: 2-3 adders/poppers x 1-3 events each, own or shared Cache objects, seeded schedules at action granularity; throttle: seeded arrival '
                 'patterns (3-25 calls, gaps 0..40 ticks) x count in {1,2,4,8} x seconds in {1,2,4} under a virtual clock; distinct = distinct event/attempt sequences',
         'samples': [{'averager_events': meta[0][1]['events'] if meta else []}, {'throttle': tlines[0], 'model': tans[0]}],
         'traces': avg_runs + len(tcases),
-        'dist': {'averager_runs': avg_runs, 'throttle_patterns': len(tcases), 'throttle_attempts': thr_attempts},
+        'dist': {'averager_runs': avg_runs, 'throttle_patterns': len(tcases), 'throttle_attempts': thr_attempts,
+                 'fractional_cases': frac_cases, 'rational_model_lines': len(qlines), 'rational_model_divergent': q_div},
         'violations': violations, 'known': [],
         'assumptions': ['throttle arithmetic is compared for dyadic rates and instants, where floats are exact; rounding for other rates is not modelled'],
     }
